@@ -3,7 +3,7 @@
    recorded values used by [check] agrees with the model's stores. *)
 From Coq Require Import List QArith Qabs Bool Arith ZArith NArith String Lia.
 Import ListNotations.
-From Onet Require Import Base.Corr Stats.Welford Stats.WelfordProofs Stats.Buckets Corr.C19.
+From Onet Require Import Base.Corr Stats.Welford Stats.WelfordProofs Stats.Buckets Stats.BucketsProofs Corr.C19.
 
 Lemma app_nil_iff {A} (a b : list A) : a ++ b = [] <-> a = [] /\ b = [].
 Proof. split; [apply app_eq_nil|intros [-> ->]; reflexivity]. Qed.
@@ -119,3 +119,82 @@ Example check_examples :
   snap_diff (exact [-5; -2])
     (mkO 2 13840687554816376832 0 13838435755002691584 13842939354630062080 4611959207554411737) = [3]%nat.
 Proof. vm_compute. repeat split. Qed.
+
+(* ---------- the per-result-set check ------------------------------------------------------ *)
+
+Local Open Scope string_scope.
+Local Open Scope list_scope.
+
+Definition row_ok (r : recs) (k : string) (row : string * osnap) : Prop :=
+  fst row = k /\ exists l, rec_find r k = Some l /\ snap_diff (exact l) (snd row) = [].
+
+(* [rows_check] reports nothing iff the reported rows are, in order, exactly the
+   expected measure names, each with statistics accepted by [snap_diff] against
+   the exact statistics of the values recorded for that measure *)
+Theorem rows_check_nil_iff : forall kc keys r o,
+  (forall k, In k keys -> rec_find r k <> None) ->
+  (rows_check kc keys r o = [] <-> Forall2 (row_ok r) keys o).
+Proof.
+  intros kc keys r. induction keys as [|k keys IH]; intros o Hk.
+  - destruct o as [|row o]; simpl.
+    + split; [constructor|reflexivity].
+    + split; [discriminate|]. intros H; inversion H.
+  - destruct o as [|[k' s] o]; cbn [rows_check].
+    + split; [discriminate|]. intros H; inversion H.
+    + destruct (String.eqb k k') eqn:E.
+      * apply String.eqb_eq in E. subst k'.
+        destruct (rec_find r k) as [l|] eqn:Ef; [|exfalso; apply (Hk k); [now left|exact Ef]].
+        rewrite app_nil_iff. rewrite IH by (intros k2 H2; apply Hk; now right). split.
+        -- intros [A B]. constructor; [|exact B]. split; [reflexivity|]. exists l. auto.
+        -- intros H. inversion H as [|? ? ? ? Hrow Hrest]; subst.
+           destruct Hrow as [_ (l' & El & Hd)]. cbn [snd] in Hd. rewrite Ef in El. injection El as <-. auto.
+      * split; [discriminate|]. intros H. inversion H as [|? ? ? ? Hrow _]; subst.
+        destruct Hrow as [Hfst _]. cbn [fst] in Hfst. subst k'. rewrite String.eqb_refl in E. discriminate.
+Qed.
+
+Lemma insert_str_in k x l : In x (insert_str k l) <-> x = k \/ In x l.
+Proof.
+  induction l as [|y l IH]; simpl; [intuition|].
+  destruct (String.leb k y); simpl; [intuition|]. rewrite IH. intuition.
+Qed.
+
+Lemma sort_strs_in x l : In x (sort_strs l) <-> In x l.
+Proof.
+  induction l as [|y l IH]; simpl; [reflexivity|].
+  rewrite insert_str_in, IH. intuition.
+Qed.
+
+Lemma rec_find_keys r k : In k (map fst r) -> rec_find r k <> None.
+Proof.
+  induction r as [|[k1 l1] r IH]; simpl; [intros []|].
+  destruct (String.eqb k k1) eqn:E; [discriminate|].
+  intros [H|H]; [subst; rewrite String.eqb_refl in E; discriminate|auto].
+Qed.
+
+(* for the key list the checker actually uses (the recorded names, sorted) the
+   side condition always holds *)
+Corollary rows_check_keys_of : forall kc r o,
+  rows_check kc (keys_of r) r o = [] <-> Forall2 (row_ok r) (keys_of r) o.
+Proof.
+  intros kc r o. apply rows_check_nil_iff. intros k Hk. apply rec_find_keys.
+  unfold keys_of in Hk. apply (proj1 (sort_strs_in _ _)) in Hk. exact Hk.
+Qed.
+
+(* the routing predicate of the checker's book-keeping is the mathematical
+   "host named by one of the ranges" (and coincides with the model's Match) *)
+Theorem in_ranges_spec : forall rr h,
+  in_ranges rr h = true <-> ((0 <= h)%Z /\ exists lo hi, In (lo, hi) rr /\ (lo <= h < hi)%Z).
+Proof.
+  intros rr h. unfold in_ranges. rewrite andb_true_iff, existsb_exists, Z.leb_le. split.
+  - intros [H0 ([lo hi] & Hin & Hm)]. simpl in Hm. apply andb_true_iff in Hm as [A B].
+    apply Z.leb_le in A. apply Z.ltb_lt in B. split; [exact H0|]. exists lo, hi. auto.
+  - intros [H0 (lo & hi & Hin & A & B)]. split; [exact H0|]. exists (lo, hi). split; [exact Hin|].
+    simpl. apply andb_true_iff. split; [now apply Z.leb_le|now apply Z.ltb_lt].
+Qed.
+
+Corollary in_ranges_is_rules_match : forall rr h, in_ranges rr h = rules_match rr h.
+Proof.
+  intros rr h. destruct (in_ranges rr h) eqn:E1, (rules_match rr h) eqn:E2; try reflexivity.
+  - apply in_ranges_spec in E1. apply (proj2 (BucketsProofs.rules_match_spec rr h)) in E1. congruence.
+  - apply BucketsProofs.rules_match_spec in E2. apply (proj2 (in_ranges_spec rr h)) in E2. congruence.
+Qed.
